@@ -34,46 +34,47 @@ theorem eligible_iff (T : Nat) (s : Snap) : eligible T s = true ↔ (T = 0 ∨ s
 
 /-! ### Contiguity of what is applied -/
 
-/-- FULL-STRENGTH statement: whenever `applyWALSegmentsV3` succeeds, the segments it appended are
-exactly WAL files `snap.index, snap.index+1, …`, each built from segments of *that* index at
-offsets `0, s₁, s₁+s₂, …`. It is FALSE of model and code (finding F10). -/
+/-- **Success implies contiguity** (full strength since the repair of finding F10): whenever
+`applyWALSegmentsV3` succeeds, the segments it appended are exactly WAL files `snap.index,
+snap.index+1, …`, each built from segments of *that* index at offsets `0, s₁, s₁+s₂, …`. -/
 def OkContiguousFull : Prop :=
   ∀ (idx : Nat) (segs : List Seg), okB (applySegs idx segs) = true → contigB idx none segs = true
-
-/-- Witness of F10: snapshot 5, segment 5/0 of 4152 bytes, segment 6/0 missing, segment 6/4152 present. -/
-def f10Segs : List Seg := [⟨0, 5, 0, 4152, 10⟩, ⟨0, 6, 4152, 4120, 20⟩]
-
-theorem f10_applied : applySegs 5 f10Segs = .ok [(5, f10Segs)] := by decide
-
-theorem v3_ok_contiguous_false : ¬ OkContiguousFull := by
-  intro h
-  have := h 5 f10Segs (by decide)
-  exact absurd this (by decide)
 
 theorem okB_applySegs (idx : Nat) (segs : List Seg) :
     okB (applySegs idx segs) = okB (applyLoop ⟨idx, 0, []⟩ segs) := by
   unfold applySegs
   cases applyLoop ⟨idx, 0, []⟩ segs <;> rfl
 
-/-- Under the complement of F10's signature (no segment with a non-zero offset directly follows a
-segment of a different index) success implies contiguity … -/
-theorem v3_ok_contiguous_partial (idx : Nat) (segs : List Seg) (hH : noStrayOffset segs = true)
-    (hok : okB (applySegs idx segs) = true) : contigB idx none segs = true := by
+theorem v3_ok_contiguous : OkContiguousFull := by
+  intro idx segs hok
   rw [okB_applySegs] at hok
-  have := applyLoop_ok_iff segs ⟨idx, 0, []⟩ none (by simp) hH
+  have := applyLoop_ok_iff segs ⟨idx, 0, []⟩ none (by simp)
   simpa [this] using hok
 
-/-- … and every gap (a missing `(index, offset)` before the last present segment, i.e. a list that
-is not contiguous from the snapshot's index) is an error. -/
-theorem v3_gap_errors (idx : Nat) (segs : List Seg) (hH : noStrayOffset segs = true)
+/-- Kept under its old name: the hypothesis is no longer needed. -/
+theorem v3_ok_contiguous_partial (idx : Nat) (segs : List Seg) (_hH : noStrayOffset segs = true)
+    (hok : okB (applySegs idx segs) = true) : contigB idx none segs = true := v3_ok_contiguous idx segs hok
+
+/-- Every gap that is visible inside the listing (wrong index at offset 0, a continuation segment of
+another index, an offset not equal to the bytes so far) is an error. -/
+theorem v3_gap_errors (idx : Nat) (segs : List Seg)
     (hgap : contigB idx none segs = false) : ∃ e, applySegs idx segs = .error e := by
-  have h := applyLoop_ok_iff segs ⟨idx, 0, []⟩ none (by simp) hH
+  have h := applyLoop_ok_iff segs ⟨idx, 0, []⟩ none (by simp)
   rw [← okB_applySegs] at h
   simp only [Option.map_none] at h
   rw [hgap] at h
   cases hr : applySegs idx segs with
   | error e => exact ⟨e, rfl⟩
   | ok g => rw [hr] at h; simp [okB] at h
+
+/-- Witness of F10 (repaired in /repo): snapshot 5, segment 5/0 of 4152 bytes, segment 6/0 missing,
+segment 6/4152 present. The code before the repair appended 6/4152 to WAL 5 … -/
+def f10Segs : List Seg := [⟨0, 5, 0, 4152, 10⟩, ⟨0, 6, 4152, 4120, 20⟩]
+
+theorem f10_old_code_applied : okB (applyLoopBeforeFix ⟨5, 0, []⟩ f10Segs) = true := by decide
+
+/-- … the repaired code reports the missing index. -/
+theorem f10_repaired_rejects : applySegs 5 f10Segs = .error .missingIndex := by decide
 
 /-- FULL-STRENGTH statement of "a missing segment produces an error": take any contiguous listing,
 remove any one segment other than the last; the restore must fail. It is FALSE of model and code
@@ -83,8 +84,7 @@ in exactly two ways, both reproduced on the real code by the engine:
 * F11 (`C19/missing-index-tail-undetected`): the *last* segment of WAL `i` removed while `(i+1,0)`
   exists — the listing carries no length of a WAL file, so the loss cannot be seen.
 `v3_gap_errors` above is the part that holds: every gap that is visible *inside the listing*
-(wrong index at offset 0, offset not equal to the bytes so far) is an error, under the
-complement of F10's signature. The general "erase one segment" theorem under the complement of
+(wrong index at offset 0, continuation of another index, offset not equal to the bytes so far) is an error (F10 is repaired). The general "erase one segment" theorem under the complement of
 both signatures is not proved (only tested by the engine). -/
 def GapErrorsFull : Prop :=
   ∀ (idx : Nat) (orig : List Seg) (s : Seg), contigB idx none orig = true → s ∈ orig →
@@ -93,45 +93,20 @@ def GapErrorsFull : Prop :=
 def f11Orig : List Seg := [⟨0, 5, 0, 4152, 10⟩, ⟨0, 5, 4152, 4120, 20⟩, ⟨0, 6, 0, 4152, 30⟩]
 def f10Orig : List Seg := [⟨0, 5, 0, 4152, 10⟩, ⟨0, 6, 0, 4152, 15⟩, ⟨0, 6, 4152, 4120, 20⟩]
 
-theorem v3_gap_errors_full_false_f10 : ¬ GapErrorsFull := by
-  intro h
-  have := h 5 f10Orig ⟨0, 6, 0, 4152, 15⟩ (by decide) (by decide) (by decide)
-  exact absurd this (by decide)
+/-- F10's erase pattern is now an error (repaired). -/
+theorem v3_gap_f10_pattern_errors : okB (applySegs 5 (f10Orig.erase ⟨0, 6, 0, 4152, 15⟩)) = false := by decide
 
 theorem v3_gap_errors_full_false_f11 : ¬ GapErrorsFull := by
   intro h
   have := h 5 f11Orig ⟨0, 5, 4152, 4120, 20⟩ (by decide) (by decide) (by decide)
   exact absurd this (by decide)
 
-/-- Without any hypothesis: a contiguous list is always accepted (no false errors). -/
+/-- A contiguous list is always accepted (no false errors). -/
 theorem v3_contiguous_ok (idx : Nat) (segs : List Seg) (hc : contigB idx none segs = true) :
     okB (applySegs idx segs) = true := by
   rw [okB_applySegs]
-  suffices H : ∀ (segs : List Seg) (st : AState) (prev : Option Nat),
-      (match st.groups with | [] => st.offset = 0 ∧ prev = none | (i, _) :: _ => prev = some i) →
-      contigB st.expected (prev.map (·, st.offset)) segs = true → noStrayFrom prev segs = true by
-    have hs := H segs ⟨idx, 0, []⟩ none (by simp) (by simpa using hc)
-    have := applyLoop_ok_iff segs ⟨idx, 0, []⟩ none (by simp) hs
-    simpa [this] using hc
-  intro segs
-  induction segs with
-  | nil => intros; rfl
-  | cons b rest ih =>
-    intro st prev hg hc
-    simp only [contigB] at hc
-    simp only [noStrayFrom, Bool.and_eq_true, Bool.or_eq_true, beq_iff_eq]
-    by_cases h0 : b.offset = 0
-    · simp only [h0, if_true, Bool.and_eq_true, decide_eq_true_eq] at hc
-      refine ⟨Or.inl (Or.inl h0), ?_⟩
-      exact ih ⟨st.expected + 1, b.size, (b.index, [b]) :: st.groups⟩ (some b.index) (by simp) (by simpa using hc.2)
-    · simp only [h0, if_false] at hc
-      cases prev with
-      | none => simp at hc
-      | some i =>
-        simp only [Option.map_some, Bool.and_eq_true, decide_eq_true_eq] at hc
-        obtain ⟨⟨hi, _⟩, hrest⟩ := hc
-        refine ⟨Or.inr (by rw [hi]), ?_⟩
-        exact ih ⟨st.expected, st.offset + b.size, (b.index, [b]) :: st.groups⟩ (some b.index) (by simp) (by simpa [hi] using hrest)
+  have := applyLoop_ok_iff segs ⟨idx, 0, []⟩ none (by simp)
+  simpa [this] using hc
 
 /-- The filter keeps exactly the segments of the snapshot's index or later that are not newer than `T`. -/
 theorem v3_filter_spec (segs : List Seg) (idx T : Nat) (s : Seg) :
